@@ -160,7 +160,11 @@ def run(ctx):
         # (declared and undeclared tables; sqlite / mssql: no EXCEPT ALL, postgres / duckdb: DISTINCT ON, generic: everything)
         sprogs = DIRECTED_STAGE_PROGRAMS + [c.prql for c in setop] + [c.prql for c in relgen.setop_cases(UNDECL, seed=22)] + [c.prql for c in shaped[:300 if quick else 1500]] + tprogs[:400 if quick else 2500]
         n_st, n_stbad, _ = preptrace.run_suite(ctx, sprogs, "stages", targets=("sql.sqlite", "sql.generic", "sql.postgres", "sql.mssql", "sql.duckdb"))
-        n_sp, n_spbad, _ = selecttrace.run_suite(ctx, sprogs[:900 if quick else 4000] + tprogs[:300 if quick else 2000], "clauses", targets=("sql.sqlite", "sql.postgres", "sql.mssql"))
+        # chains of takes in one SELECT (open and closed ranges): the folded LIMIT / OFFSET is part of the replayed call
+        rngs = ["..4", "3..", "2..5", "3..10", "5..5", "1..2"]
+        chains = [f"from t | select {{a, b}} | take {x} | take {y}" for x in rngs for y in rngs] + \
+                 [f"from t | sort a | take {x} | take {y} | take {z}" for x in rngs[:4] for y in rngs[:4] for z in rngs[:3]]
+        n_sp, n_spbad, _ = selecttrace.run_suite(ctx, chains + sprogs[:900 if quick else 4000] + tprogs[:300 if quick else 2000], "clauses", targets=("sql.sqlite", "sql.postgres", "sql.mssql"))
         ctx.obligation("correspondence: translate_select_pipeline (projection, WHERE / HAVING split at the aggregate, GROUP BY, last ORDER BY, folded LIMIT / OFFSET, DISTINCT / DISTINCT ON) = Model.SelectPipe.parts on every recorded call",
                        n_spbad == 0 and n_sp > 0, f"{n_sp} recorded calls replayed, {n_spbad} differ")
         n_pm, n_pmbad, _ = postrace.run_suite(ctx, [p_["prql"] for p_ in appendshapes.programs()] + sprogs[:600 if quick else 3000], "positional", targets=("sql.sqlite", "sql.postgres"))
